@@ -11,7 +11,9 @@ SPEC = {
                      "dereference is a fault, both proved impossible",
                      "which received frame completes a message (SetN2kCANBufMsg / TestHandleTPMessage) is NOT modelled here "
                      "(C02/C10): the model takes the outcome as input; the harness exercises the real receive path for single "
-                     "frames, one-frame fast packets, lone TP.CM/TP.DT frames and a BAM transfer"],
+                     "frames, one-frame fast packets, lone TP.CM/TP.DT frames, a BAM transfer and multi-frame fast packets "
+                     "(intact and damaged: missing/duplicate/swapped frame, wrong counter or sequence id, restart), judged by a "
+                     "strict in-order reference receiver written from the fast-packet format"],
     'assumptions': ["handlers are only used while alive and constructed where no live object is (C++ object lifetime rules)",
                     "a handler's PGN is not changed while attached; bus objects outlive their handlers",
                     "HandleMsg / the plain callback do not attach, detach or destroy handlers while a message is dispatched",
@@ -27,7 +29,9 @@ MANIFEST = {
             "iff set. Correspondence: real tMsgHandler subclasses on two real tNMEA2000 objects (one listen-only, one active "
             "node) fed CAN frames through ParseMessages under ASan, compared call by call (ids in call order) with the model and "
             "with a multiset reference; exhaustive over all op sequences of bounded length on 2-4 handlers with equal/distinct/zero "
-            "PGNs and 2 buses, random long histories on 8 handlers with every PGN class of message.",
+            "PGNs and 2 buses, random long histories on 8 handlers with every PGN class of message; multi-frame fast packets, intact "
+            "and damaged, with ParseMessages after every frame: dispatches = messages completely received, each carrying the "
+            "PGN and source of the completed message.",
     'design_ref': 'DESIGN.md section 4, C14',
     'note': "Trusted: Lean kernel; hand transcription validated only by the differential runs; the decision which frame completes a "
             "message is taken from the real code in the harness and is an input of the model (lone TP.CM/TP.DT frames never "
